@@ -130,6 +130,9 @@ Print Assumptions C06_reset.
 Print Assumptions C06_read_leaves_valid.
 Print Assumptions C06_source_insert_is_the_model.
 Print Assumptions C06_source_insert_index_step.
+Theorem C06_source_index_empty_is_the_model : forall g, tne (_tags g) -> IndexGen.gen_empty g = ix_is_empty (abs g).
+Proof. exact gen_empty_eq. Qed.
+
 Print Assumptions C06_source_index_reset_is_the_model.
 Print Assumptions C06_source_index_invalidate_is_the_model.
 Print Assumptions C06_source_index_init_is_the_model.
@@ -144,3 +147,4 @@ Print Assumptions C06_source_index_insert.
 Print Assumptions C06_source_index_remove.
 Print Assumptions C06_source_index_reset.
 Print Assumptions C06_source_index_init.
+Print Assumptions C06_source_index_empty_is_the_model.
